@@ -75,10 +75,15 @@ def generate_case(rng_world, rng_swarm, rng_sched, profile):
     kinds = [k for k, v in w.items() for _ in range(v)] or ["set"]
     steps = []
     npar = len(doc.paras)
+    # observing a paragraph (key listing, indexed reads) is itself a sequence of calls on the
+    # object and can repair or hide lazily maintained state: how often the clients look is
+    # part of the schedule.  The dump is always compared; everything is read at the end.
+    observe_rate = rng_swarm.choice([1.0, 1.0, 0.5, 0.15, 0.0])
     for _ in range(nsteps):
         k = rng_sched.choice(kinds)
         pi = rng_sched.randrange(max(npar, 1))
-        st = {"op": k, "p": pi, "via": rng_sched.choice(["held", "held", "fresh", "view"])}
+        st = {"op": k, "p": pi, "via": rng_sched.choice(["held", "held", "fresh", "view"]),
+              "observe": rng_sched.random() < observe_rate}
         if k in ("set", "del", "get") or k in ORDER_OPS:
             st["key"] = gen_key(rng_sched, doc, pi % max(len(doc.paras), 1))
             dupc = pi < len(doc.paras) and is_dup(doc.paras[pi])
@@ -602,8 +607,12 @@ def execute_case(case, profile):
             inter.append((st["op"], st.get("p"), st.get("via")))
             if st["op"] not in ("get", "gc", "drop_held"):
                 mutations += 1
-            run.check_reads(si, st["op"])
+            if st.get("observe", True):
+                run.check_reads(si, st["op"])
+            else:
+                out.probe("step_without_observation")
             out.states.add(stable_hash(run.doc.to_json()))
+        run.check_reads(len(case["trace"]), "end")
         out.nontrivial = mutations >= 2
     finally:
         if gc_was:
